@@ -380,6 +380,22 @@ def report_violations(ctx, case: Case, viol: List[Dict[str, Any]], mutation: Opt
             v2, _ = powerloss.sweep(c2.raw, c2.root, c2.reader)
             if v2:
                 case, v = c2, min(v2, key=pick)
+    if fault is not None and mutation is None:
+        # shrink: the steps after the one the fault hit are not needed (earlier calls, hence the fault index, are unchanged)
+        j = None
+        for ev in case.raw:
+            if ev["op"] == "mark":
+                if ev["label"].endswith(":begin"):
+                    j = int(ev["label"].split(":")[0])
+                elif ev["label"].startswith("fault:"):
+                    break
+        if j is not None and j + 1 < len(case.steps):
+            c2 = make_case(ctx, case.steps[: j + 1], case.mode, None, fault)
+            if not c2.error:
+                v2, _ = powerloss.sweep(c2.raw, c2.root, c2.reader, outcomes=["drop_all", "entries_early"])
+                v2 += [{"prefix": a["prefix"], "outcome": "drop_all", "problems": [dict(a, problem="acknowledged commit not durable")]} for a in ack_check(c2)]
+                if v2:
+                    case, v, steps, viol = c2, min(v2, key=pick), c2.steps, v2
     prob = v["problems"][0]
     key = f"pointer-outruns-data:{prob.get('problem', '?').split(' ')[0]}:{powerloss.kind_of(prob.get('file', '')) if prob.get('file') else 'pointer'}"
     fdesc = None
